@@ -108,7 +108,8 @@ def cases(tier: str, seed: int) -> list[dict]:
             if key in seen:
                 continue
             seen.add(key)
-            out.append({"src": "mc", "world": w, "events": b["hist"]})
+            # the base dataset of the session is held in memory / reopened lazily from a file / dask-backed (emsarray.open_dataset would bind it, which the machine models as Access)
+            out.append({"src": "mc", "world": dict(w, via=["memory", "file", "dask"][len(out) % 3]), "events": b["hist"]})
     return out
 
 
@@ -155,7 +156,9 @@ def execute(case: dict) -> dict:
         shutil.rmtree(work)
     work.mkdir(parents=True)
     try:
-        ds0 = W.build(w)
+        from .. import viafile
+        held = viafile.hold(w, W.build(w))
+        ds0 = held.ds
         rec = {"tid": case["tid"], "src": case["src"], "w": tlc_base(w, ds0), "events": []}
         rings = GW.abstract_polys(w)
         objs = [ds0]
@@ -247,4 +250,8 @@ def execute(case: dict) -> dict:
             rec["events"].append(e)
         return rec
     finally:
+        try:
+            held.close()
+        except NameError:
+            pass
         shutil.rmtree(work, ignore_errors=True)
